@@ -190,7 +190,7 @@ Map<RawCell*> read_rawcells(const char* filename, ErrorCode* error_code) {
     for (MapItem<RawCell*>* item = result.next(NULL); item; item = result.next(item)) {
         rawcell = item->value;
         Array<RawCell*>* dependencies = &rawcell->dependencies;
-        for (uint64_t i = 0; i < dependencies->count;) {
+        for (uint64_t i = 0; i < dependencies->count; i++) {
             char* name = (char*)((*dependencies)[i]);
             free_allocation(name);
         }
